@@ -96,6 +96,8 @@ def run_shard(shard):
     if shard['kind'] == 'mixed':
         for s in layers.mixed_arg_strings():
             check_string(acc, s, 'mixed-order arguments')
+        for s in layers.env_name_strings():
+            check_string(acc, s, 'environment names')
     elif shard['kind'] == 'fresh':
         for j, s in enumerate(strings.fresh_char_strings()):
             if j % shard['k'] == shard['i']:
